@@ -150,9 +150,15 @@ pub const BOUNDARY_BYTES: [u8; 10] = [0x00, 0x01, 0x02, 0x03, 0x21, 0x40, 0x7F, 
 
 /// Byte-level single-fault mutants of `f`. `payload_stride`: only every stride-th byte gets the
 /// full treatment (1 = all), the first/last 64 bytes always do.
-pub fn byte_mutants(f: &[u8], stride: usize, mut emit: impl FnMut(Mutant)) {
+pub fn byte_mutants(f: &[u8], stride: usize, emit: impl FnMut(Mutant)) {
+    byte_mutants_range(f, stride, 0, f.len(), emit)
+}
+
+/// As `byte_mutants`, restricted to positions in [lo, hi) (prefix/suffix insertions only with lo = 0),
+/// so that the mutants of one large file can be spread over several workers.
+pub fn byte_mutants_range(f: &[u8], stride: usize, lo: usize, hi: usize, mut emit: impl FnMut(Mutant)) {
     let n = f.len();
-    for i in 0..n {
+    for i in lo..hi.min(n) {
         let full = stride <= 1 || i < 64 || i + 64 >= n || i % stride == 0;
         if !full {
             continue;
@@ -192,8 +198,14 @@ pub fn byte_mutants(f: &[u8], stride: usize, mut emit: impl FnMut(Mutant)) {
             emit(Mutant { desc: format!("ins@{i}={v:02x}"), class: "insert", bytes: m });
         }
     }
-    for t in 0..n {
+    for t in lo..hi.min(n) {
+        if stride > 1 && !(t < 64 || t + 64 >= n || t % stride == 0) {
+            continue;
+        }
         emit(Mutant { desc: format!("trunc@{t}"), class: "truncate", bytes: f[..t].to_vec() });
+    }
+    if lo != 0 {
+        return;
     }
     for (name, ins) in [("00", vec![0u8]), ("ff", vec![0xFF]), ("xzmagic", vec![0xFD, b'7', b'z', b'X', b'Z', 0]), ("lzipmagic", b"LZIP".to_vec()), ("0000", vec![0; 4])] {
         let mut m = ins.clone();
